@@ -17,6 +17,7 @@ owns new `__instances` / `__strong_cache` / lock but executes the very same `__c
 import sys, os, re, gc, threading, inspect, weakref, datetime, random, warnings, time
 
 STEP_TIMEOUT = 20.0
+PROBE = datetime.datetime(2020, 6, 15, 12, 0)
 
 
 class InfraError(Exception):
@@ -32,12 +33,16 @@ class SchedAbort(BaseException):
 # --------------------------------------------------------------------------------------
 OFFSET_KEYS = [("A", 3600), ("B", 3600), ("A", -3600), (None, 0), ("UTC", 0), ("C", 7200), ("D", 1800),
                ("E", -18000), ("F", 19800), ("G", 45), ("H", -45), ("I", 86399), ("J", -86399), ("K", 60),
-               ("L", 120), ("M", 180), ("N", 240), ("O", 300), ("P", 360), ("Q", 420)]
+               ("L", 120), ("M", 180), ("N", 240), ("O", 300), ("P", 360), ("Q", 420),
+               ("A", "x")]                                   # the constructor raises TypeError (under the lock)
+OFFSET_RAISES = {("A", "x")}
 STR_KEYS = [("EST5EDT", False), ("EST5EDT", True), ("AAA3", False), ("BBB-4CCC,M3.2.0,M11.1.0", False),
             ("UTC+3", False), ("UTC+3", True), ("CET-1CEST,M3.5.0,M10.5.0/3", False), ("XXX4", False),
             ("YYY-5", False), ("AEST-10AEDT-11,M10.1.0/2,M4.1.0/3", False), ("GMT0BST,M3.5.0/1,M10.5.0", False),
             ("NST3:30NDT,M3.2.0,M11.1.0", False), ("ZZZ6", False), ("WWW7", True), ("VVV8", False),
-            ("TTT9", False), ("SSS-9", False), ("RRR-10", True), ("QQQ-11", False), ("PPP1", False)]
+            ("TTT9", False), ("SSS-9", False), ("RRR-10", True), ("QQQ-11", False), ("PPP1", False),
+            ("1", False)]                                    # the constructor raises ValueError (under the lock)
+STR_RAISES = {("1", False)}
 LOCAL_TZ = "XYZ3QRS"                 # process TZ while gettz cases run: names XYZ / QRS resolve to tzlocal()
 GETTZ_ZONE = ["Europe/Paris", "America/New_York", "Asia/Tokyo", "Australia/Sydney", "Africa/Cairo",
               "Europe/London", "America/Sao_Paulo", "Asia/Kolkata", "Pacific/Auckland", "Europe/Dublin",
@@ -45,6 +50,8 @@ GETTZ_ZONE = ["Europe/Paris", "America/New_York", "Asia/Tokyo", "Australia/Sydne
               "America/Los_Angeles", "Asia/Tehran", "Pacific/Chatham"]
 GETTZ_UNCACHED = ["XYZ", "QRS"]
 GETTZ_NONE = ["Nonexistent/Zone", "NoSuchZoneAtAll"]
+GETTZ_SHARED = [("UTC", 0), ("GMT", 0), ("Vend/A", 1), ("Vend/B", 2)]   # (name, slot): the constant tz.UTC / vendored entries
+GETTZ_RAISES = [b"x"]                                        # nocache raises TypeError under the lock
 
 
 def zoneinfo_names():
@@ -66,6 +73,52 @@ class pinned_tz:
         else:
             os.environ["TZ"] = self.old
         time.tzset()
+
+
+class _VendoredStub:
+    def __init__(self, zones):
+        self.zones = zones
+
+    def get(self, name, default=None):
+        return self.zones.get(name, default)
+
+
+class gettz_env:
+    """the environment the gettz factory cases run in: TZ = LOCAL_TZ (names XYZ / QRS are tzlocal); TZPATHS = one
+    temporary directory of symlinks to the GETTZ_ZONE files (so `UTC` / `GMT` are NOT files and resolve to the constant
+    tz.UTC); a vendored database with the entries Vend/A, Vend/B.  Everything is restored / removed on exit."""
+    def __enter__(self):
+        import tempfile
+        from dateutil.tz import tz as T
+        import dateutil.zoneinfo as Z
+        from dateutil import tz
+        self.T, self.Z = T, Z
+        self.old = (os.environ.get("TZ"), T.TZPATHS, Z.get_zonefile_instance)
+        os.environ["TZ"] = LOCAL_TZ
+        time.tzset()
+        self.root = tempfile.mkdtemp(prefix="c18gettz_")
+        for n in zoneinfo_names():
+            d = os.path.join(self.root, n)
+            os.makedirs(os.path.dirname(d), exist_ok=True)
+            os.symlink(os.path.join("/usr/share/zoneinfo", n), d)
+        T.TZPATHS = [self.root]
+        stub = _VendoredStub({"Vend/A": tz.tzfile("/usr/share/zoneinfo/Asia/Tehran"),
+                              "Vend/B": tz.tzfile("/usr/share/zoneinfo/Pacific/Chatham")})
+        Z.get_zonefile_instance = lambda new_instance=False: stub
+        return self
+
+    def __exit__(self, *a):
+        import shutil
+        tzv, paths, gz = self.old
+        if tzv is None:
+            os.environ.pop("TZ", None)
+        else:
+            os.environ["TZ"] = tzv
+        time.tzset()
+        self.T.TZPATHS = paths
+        self.Z.get_zonefile_instance = gz
+        shutil.rmtree(self.root, ignore_errors=True)
+        return False
 
 
 # --------------------------------------------------------------------------------------
@@ -151,6 +204,23 @@ class Fac:
     def res_classes(self):
         return []
 
+    def raises_key(self, k):
+        return False
+
+    def aux_functions(self):
+        """every other Python function of the factory's own code (helpers a change may introduce, e.g. a
+        `__trim_strong_cache`): scheduled line by line too, without a model counterpart"""
+        from dateutil.tz import _factories as F
+        out = []
+        for cls in vars(F).values():
+            if isinstance(cls, type) and cls.__module__ == F.__name__:
+                out += [v for v in vars(cls).values() if inspect.isfunction(v)]
+        return out
+
+    def compares_identity(self, k, cached):
+        """identity classes are compared for cached results and for results that are an existing shared object"""
+        return cached
+
 
 def _mangled(obj, owner, name):
     return "_%s__%s" % (owner, name)
@@ -174,6 +244,13 @@ class LruFac(Fac):
         setattr(self.cls, "_%s__strong_cache_size" % self.owner.lstrip("_"), cap)
         self.cap = cap
         self.nkeys = len(self.keys)
+        self.raising = OFFSET_RAISES if flavour == "tzoffset" else STR_RAISES
+
+    def res_classes(self):
+        return [3 if tuple(k) in self.raising else 0 for k in self.keys]
+
+    def raises_key(self, k):
+        return tuple(self.keys[k]) in self.raising
 
     def functions(self):
         req = [p[0] for i, p in enumerate(LRU_PATTERNS) if i != 4]
@@ -186,7 +263,7 @@ class LruFac(Fac):
         a = self.keys[k]
         if self.flavour == "tzoffset":
             name, off = a
-            if variant % 2:
+            if variant % 2 and not isinstance(off, str):
                 off = datetime.timedelta(seconds=off)
             return self.cls(name, off)
         s, px = a
@@ -230,9 +307,10 @@ class GettzFac(Fac):
     def __init__(self, cap=8):
         from dateutil import tz
         self.f = type(tz.gettz)()
-        self.names = zoneinfo_names() + GETTZ_UNCACHED + GETTZ_NONE
+        self.names = zoneinfo_names() + GETTZ_UNCACHED + GETTZ_NONE + [n for n, _ in GETTZ_SHARED] + GETTZ_RAISES
         nz = len(zoneinfo_names())
-        self.classes = [0] * nz + [1] * len(GETTZ_UNCACHED) + [2] * len(GETTZ_NONE)
+        self.classes = [0] * nz + [1] * len(GETTZ_UNCACHED) + [2] * len(GETTZ_NONE) + [10 + sl for _, sl in GETTZ_SHARED] \
+            + [3] * len(GETTZ_RAISES)
         self.nkeys = len(self.names)
         self.nzone = nz
         if cap != 8:
@@ -243,7 +321,13 @@ class GettzFac(Fac):
         return self.classes
 
     def cached_key(self, k):
-        return self.classes[k] == 0
+        return self.classes[k] == 0 or self.classes[k] >= 10
+
+    def raises_key(self, k):
+        return self.classes[k] == 3
+
+    def compares_identity(self, k, cached):
+        return cached or self.classes[k] >= 10
 
     def functions(self):
         T = type(self.f)
@@ -253,6 +337,10 @@ class GettzFac(Fac):
 
     def install_lock(self, lock):
         self.f._cache_lock = lock
+
+    def aux_functions(self):
+        # all methods of GettzFunc (not the staticmethod nocache: name resolution touches no shared state of the factory)
+        return [v for k, v in vars(type(self.f)).items() if inspect.isfunction(v)]
 
     def call(self, k, variant=0):
         return self.f(self.names[k]) if variant % 2 else self.f(name=self.names[k])
@@ -367,7 +455,7 @@ def parse_model(resp):
     rets = []
     for r in [x for x in d.get("rets", "").split(";") if x]:
         t, k, i, c = r.split(":")
-        rets.append((int(t), int(k), None if i == "-" else int(i), c == "1"))
+        rets.append((int(t), int(k), None if i in ("-", "!") else int(i), c == "1", i == "!"))
     out["rets"] = rets
     out["strong"] = [int(x.split(":")[0]) for x in d.get("strong", "").split(",") if x]
     out["weak"] = sorted(int(x.split(":")[0]) for x in d.get("weak", "").split(",") if x)
@@ -401,20 +489,22 @@ def run_script(fac, ops):
     err = None
     try:
         for op in ops:
-            if op[0] == "call":
-                o = fac.call(op[1], op[2] if len(op) > 2 else 0)
-                cached = fac.cached_key(op[1]) if isinstance(fac, GettzFac) else True
-                rets.append((op[1], classes.of(o), cached, o is None))
+            if op[0] in ("call", "fresh"):
+                script.append((op[0], op[1])); labels.append("r0")
+                try:
+                    o = fac.call(op[1], op[2] if len(op) > 2 else 0) if op[0] == "call" else fac.fresh(op[1])
+                except Exception as ex:               # noqa
+                    if not fac.raises_key(op[1]):
+                        raise
+                    rets.append((op[1], None, False, True, True, False))      # the documented exception of that key
+                    continue
+                cached = op[0] == "call" and (fac.cached_key(op[1]) if isinstance(fac, GettzFac) else True)
+                rets.append((op[1], classes.of(o), cached, o is None, False, fac.compares_identity(op[1], cached)))
                 if cached:
                     held[nret] = o
                     nret += 1
-                script.append(("call", op[1])); labels.append("r0")
-                del o
-            elif op[0] == "fresh":
-                o = fac.fresh(op[1])
-                rets.append((op[1], classes.of(o), False, o is None))
-                keep_fresh.append(o)
-                script.append(("fresh", op[1])); labels.append("r0")
+                else:
+                    keep_fresh.append(o)
                 del o
             elif op[0] == "drop":
                 if op[1] in held:
@@ -444,27 +534,33 @@ def compare_script(obs, model):
         return ["model rejected the request"]
     if obs["error"]:
         diffs.append("implementation raised " + obs["error"])
-    mi = [(k, i, c) for (_, k, i, c) in model["rets"]]
-    ii = obs["rets"]
-    if len(mi) != len(ii):
-        diffs.append("returns: %d (impl) vs %d (model)" % (len(ii), len(mi)))
-    else:
-        # identity classes are compared on the cached returns; uncached results (tzlocal / None /
-        # instance / nocache) only for being None or not, and freshness is checked by the oracle
-        if [r[0] for r in ii] != [r[0] for r in mi]:
-            diffs.append("keys differ")
-        ic = canon([r[1] if r[2] else None for r in ii])
-        mc = canon([r[1] if r[2] else None for r in mi])
-        if ic != mc:
-            diffs.append("identity classes of cached returns: impl %s model %s" % (ic, mc))
-        if [r[3] for r in ii] != [r[1] is None for r in mi]:
-            diffs.append("None-ness of results differs")
+    diffs += compare_rets([(0,) + tuple(r) for r in obs["rets"]], model["rets"])
     if obs["strong"] != model["strong"]:
         diffs.append("strong cache order: impl %s model %s" % (obs["strong"], model["strong"]))
     if obs["weak"] != model["weak"]:
         diffs.append("live weak keys: impl %s model %s" % (obs["weak"], model["weak"]))
     if obs["cap"] != model["cap"]:
         diffs.append("cache size: impl %s model %s" % (obs["cap"], model["cap"]))
+    return diffs
+
+
+def compare_rets(ii, mi):
+    """ii: impl returns (t, key, cls, cached, none, exc, cmp);  mi: model returns (t, key, id, cached, exc)"""
+    diffs = []
+    if len(ii) != len(mi):
+        return ["returns: %d (impl) vs %d (model)" % (len(ii), len(mi))]
+    if [(r[0], r[1]) for r in ii] != [(r[0], r[1]) for r in mi]:
+        diffs.append("order / keys of returns differ")
+    if [bool(r[5]) for r in ii] != [bool(r[4]) for r in mi]:
+        diffs.append("raised/returned differs: impl %s model %s" % ([int(r[5]) for r in ii], [int(r[4]) for r in mi]))
+    # identity classes: cached results and results that are an existing shared object; the other uncached
+    # results (tzlocal / None / instance / nocache) only for being None or not — their freshness is an oracle matter
+    ic = canon([r[2] if r[6] else None for r in ii])
+    mc = canon([m[2] if r[6] else None for r, m in zip(ii, mi)])
+    if ic != mc:
+        diffs.append("identity classes: impl %s model %s" % (ic, mc))
+    if [bool(r[4]) for r in ii] != [m[2] is None for m in mi]:
+        diffs.append("None-ness of results differs")
     return diffs
 
 
@@ -649,6 +745,10 @@ def build_tables(fac, lenient=False):
             table = {}
         tables[fn.__code__] = (tag, table)
         info[tag] = table
+    info["aux"] = {}
+    for fn in fac.aux_functions():
+        if fn.__code__ not in tables:
+            tables[fn.__code__] = ("aux", {})
     return tables, info, unmapped
 
 
@@ -673,24 +773,35 @@ def run_threads(fac, scripts, policy, env_rng=None, env_rate=0.0, max_steps=5000
     order = []                               # every return, in order: dict(t, key, obj, cached, cls, none, epoch)
     handed = [[] for _ in range(n)]          # per thread: the cached returns (index = ticket seq)
     errors = []
+    leaked = []                              # an exception left the call with the cache lock still held
 
     def body(s, idx):
         for op in scripts[idx]:
             s._pause(idx, ("start", op[0]))
             try:
-                if op[0] == "call":
-                    o = fac.call(op[1], op[2] if len(op) > 2 else 0)
-                    cached = fac.cached_key(op[1]) if isinstance(fac, GettzFac) else True
+                if op[0] in ("call", "fresh"):
+                    try:
+                        o = fac.call(op[1], op[2] if len(op) > 2 else 0) if op[0] == "call" else fac.fresh(op[1])
+                    except SchedAbort:
+                        raise
+                    except Exception as ex:        # noqa
+                        if not fac.raises_key(op[1]):
+                            raise
+                        # the documented exception of that key (TypeError / ValueError from the constructor)
+                        order.append({"t": idx, "key": op[1], "obj": None, "cached": False, "cls": None, "none": True,
+                                      "epoch": None, "exc": True, "cmp": False, "fresh": False})
+                        if lock.owner == idx:
+                            leaked.append({"thread": idx, "op": list(op)})       # NOT reset: a follow-on deadlock must show
+                        continue
+                    if o is not None:
+                        o.utcoffset(PROBE); o.tzname(PROBE)       # a half-built zone would fail here ("never observe …")
+                    cached = op[0] == "call" and (fac.cached_key(op[1]) if isinstance(fac, GettzFac) else True)
                     e = {"t": idx, "key": op[1], "obj": o, "cached": cached, "cls": classes.of(o), "none": o is None,
-                         "epoch": None}
+                         "epoch": None, "exc": False, "cmp": fac.compares_identity(op[1], cached),
+                         "fresh": op[0] == "fresh" and not fac.compares_identity(op[1], False)}
                     order.append(e)
                     if cached:
                         handed[idx].append(e)
-                    del o
-                elif op[0] == "fresh":
-                    o = fac.fresh(op[1])
-                    order.append({"t": idx, "key": op[1], "obj": o, "cached": False, "cls": classes.of(o),
-                                  "none": o is None, "epoch": None})
                     del o
                 elif op[0] == "setsize":
                     fac.set_size(op[1])
@@ -701,7 +812,7 @@ def run_threads(fac, scripts, policy, env_rng=None, env_rate=0.0, max_steps=5000
             except Exception as ex:            # noqa — "never observe an exception"
                 errors.append({"thread": idx, "op": list(op), "exception": "%s: %s" % (type(ex).__name__, ex)})
                 if lock.owner == idx:
-                    lock.owner = None
+                    leaked.append({"thread": idx, "op": list(op)})
 
     threads = [sched.spawn(i, body) for i in range(n)]
     for i in range(n):
@@ -712,6 +823,7 @@ def run_threads(fac, scripts, policy, env_rng=None, env_rate=0.0, max_steps=5000
     steps = 0
     tokens = []                              # epoch tokens (kept alive so identity is meaningful)
     last_epoch = [0] * n
+    pending_fresh = [False] * n
 
     def epoch_index():
         tok = fac.f._GettzFunc__instances if isinstance(fac, GettzFac) else None
@@ -735,7 +847,7 @@ def run_threads(fac, scripts, policy, env_rng=None, env_rate=0.0, max_steps=5000
         if st[0] == "blocked":
             return "B"
         pc = entry(st)[0]
-        return None if pc == "REL" else pc
+        return None if pc in ("REL", "xRel") else pc      # the `with` exit: normal (xRel / gRelE) or exceptional (xRelX)
 
     def fires(st):
         if st[0] in ("start", "blocked"):
@@ -775,18 +887,25 @@ def run_threads(fac, scripts, policy, env_rng=None, env_rate=0.0, max_steps=5000
             for e in order[nret:]:
                 e["epoch"] = last_epoch[c]
             trace.append((c, before, after))
-            if fires(before):
-                if before[0] == "start" and before[1] == "fresh":
+            if before[0] == "start" and before[1] == "fresh":
+                pending_fresh[c] = True          # instance / nocache: one model step, taken when the call completes
+            if pending_fresh[c]:
+                if after[0] in ("start", "done"):
+                    pending_fresh[c] = False
                     labels.append("r%d" % c)
-                else:
-                    labels.append("m%d" % c)
+                    expect.append("idle")
+            elif fires(before):
+                labels.append("m%d" % c)
                 expect.append(pc_of(after))
     finally:
         sched.stop()
     for t in threads:
         t.join(STEP_TIMEOUT)
     all_returned = all(sched.state[i][0] == "done" for i in range(n)) and not deadlock
-    rets = [(e["t"], e["key"], e["cls"], e["cached"], e["none"]) for e in order]
+    rets = [(e["t"], e["key"], e["cls"], e["cached"], e["none"], e["exc"], e["cmp"]) for e in order]
+    # instance / nocache results that must be new objects: not identical to any other result of the run
+    stale = [(e["t"], e["key"]) for e in order if e["fresh"] and e["cls"] is not None
+             and sum(1 for x in order if x["cls"] == e["cls"]) > 1]
     req = "fact.run %s %d %s %s %s 1" % (
         fac.model_kind, fac.cap, "[" + ",".join(map(str, fac.res_classes())) + "]",
         script_wire([[tuple(o[:2]) for o in sc] for sc in scripts]), ",".join(labels) if labels else "-")
@@ -795,6 +914,8 @@ def run_threads(fac, scripts, policy, env_rng=None, env_rate=0.0, max_steps=5000
             "deadlock": deadlock, "all_returned": all_returned, "steps": steps,
             "strong": fac.strong_keys(), "weak": fac.weak_keys(), "cap": fac.cap_now(), "request": req,
             "dups": live_duplicates(fac, live_refs),
+            # the same, ignoring epochs: two live objects for one key where a cache_clear separates the two requests
+            "dups_any_epoch": live_duplicates(fac, [(k[0], o) for (k, o) in live_refs]), "lock_leaked": leaked, "not_fresh": stale,
             "lock_balanced": lock.acquires == lock.releases and lock.owner is None,
             "schedule": [c for (_, c, _) in choices], "unmapped": unmapped}
 
@@ -812,19 +933,7 @@ def compare_threads(rec, model):
             if e is not None and g != e:
                 diffs.append("step %d: implementation is at %s, model at %s" % (i, e, g))
                 break
-    ii = rec["rets"]
-    mi = model["rets"]
-    if len(ii) != len(mi):
-        diffs.append("returns: %d (impl) vs %d (model)" % (len(ii), len(mi)))
-    else:
-        if [(r[0], r[1]) for r in ii] != [(r[0], r[1]) for r in mi]:
-            diffs.append("order / keys of returns differ")
-        ic = canon([r[2] if r[3] else None for r in ii])
-        mc = canon([r[2] if r[3] else None for r in mi])
-        if ic != mc:
-            diffs.append("identity classes of cached returns: impl %s model %s" % (ic, mc))
-        if [r[4] for r in ii] != [r[2] is None for r in mi]:
-            diffs.append("None-ness of results differs")
+    diffs += compare_rets(rec["rets"], model["rets"])
     if rec["all_returned"]:
         if rec["strong"] != model["strong"]:
             diffs.append("strong cache order: impl %s model %s" % (rec["strong"], model["strong"]))
@@ -838,14 +947,15 @@ def compare_threads(rec, model):
 def explore(make_case, bound, max_runs, on_run, fine=False):
     """every schedule with at most `bound` preemptions (stateless DFS by re-execution).
     make_case() -> (fac, scripts);  on_run(rec, fac, scripts) is called for each executed schedule.
-    Returns (#runs, exhausted?)."""
+    Returns (executions, distinct schedules, exhaustive?): `exhaustive` is True only when the frontier was emptied,
+    i.e. EVERY schedule with at most `bound` preemptions was executed; on_run sees each distinct schedule once."""
     import collections
     stack = collections.deque([[]])      # breadth first: fewest preemptions first when truncated
     runs = 0
     seen = set()
     while stack:
         if runs >= max_runs:
-            return runs, False
+            return runs, len(seen), False
         prefix = stack.popleft()
         fac, scripts = make_case()
         rec = run_threads(fac, scripts, PrefixPolicy(prefix), fine=fine)
@@ -870,4 +980,4 @@ def explore(make_case, bound, max_runs, on_run, fine=False):
                 cost = 1 if (cur is not None and cur in enabled and alt != cur) else 0
                 if pres[i] + cost <= bound:
                     stack.append([c for (_, c, _) in ch[:i]] + [alt])
-    return runs, True
+    return runs, len(seen), True
